@@ -55,7 +55,7 @@ module.exports.run_case = async function (c, repo) {
         let header = null;
         if (c.with_headers) { header = rows.length ? rows[0] : null; rows = rows.slice(1); }
         const intact = fs.readFileSync(inp, 'utf-8') === c.in_lines.map(l => l + '\n').join('') &&
-                       fs.readFileSync(jpath, 'utf-8') === c.join_lines.map(l => l + '\n').join('');
+                       (c.join_lines === null || fs.readFileSync(jpath, 'utf-8') === c.join_lines.map(l => l + '\n').join(''));
         return {rows: rows, header: header, warnings: warns.map(warning_kind).sort(), error: null, sources_ok: intact};
     } finally {
         fs.rmSync(d, {recursive: true, force: true});
